@@ -30,7 +30,7 @@ def dedupKeys : List Key → List Key
 def idLt (a b : EName × Nat) : Bool := a.1.toHex < b.1.toHex || (a.1 == b.1 && a.2 < b.2)
 
 /-- the ready *set* of an ordered ready list -/
-def canonSet (κ : Key) : Key := (κ.toArray.qsort idLt).toList
+def canonSet (κ : Key) : Key := ((κ.filter fun e => e.1 != [112, 105, 99, 107, 111, 110, 101, 58]).toArray.qsort idLt).toList
 
 structure GroupVerdict where
   members : Key
@@ -66,9 +66,11 @@ def doRun (a : Json) : Except String Json := do
   -- the window: picks (arrays of upstream names) and Syncs (`{"sync": <C03 sync op>}`) in between, in order
   let events ← J.getArr a "events"
   let mut st : State := { s with lb := lb }
+  let mut lbAuth : List (Key × Nat) := []   -- PickOne's own cursors, when the code gives it some (`own`)
   let mut resultsA : Array PopOut := #[]
   let mut keysA : Array Key := #[]
-  let mut stable := true     -- no Sync of the window changed an endpoint object: the ready sets are stable
+  let mut stable := true     -- no Sync / probe of the window changed an endpoint's readiness: the ready sets are stable
+  let scopeTag : EName × Nat := ([112, 105, 99, 107, 111, 110, 101, 58], 0)   -- "pickone:" marks keys of the other cursor scope
   for ev in events do
     match ev with
     | Json.arr xs =>
@@ -78,11 +80,31 @@ def doRun (a : Json) : Except String Json := do
       resultsA := resultsA.push r.1
       st := { st with lb := r.2 }
     | _ =>
-      let h ← decodeOp st (← J.getObj ev "sync")
-      let r := step st h.op
-      let st' := (quiesce h.up (fuelOf r.1) r.1 []).1
-      if st'.eps != st.eps then stable := false
-      st := st'
+      match J.optObj ev "pickone" with
+      | some po =>
+        -- ClusterInfo.PickOne(): a Pop over AllEndpoints() in the observed order, on the policies' cursors or on its own
+        let us ← J.getHexList po "order"
+        let own := (J.getBool po "own").toOption.getD false
+        let key := (readyList st.eps us).map EP.id
+        if own then
+          let r := pop st.eps lbAuth us
+          keysA := keysA.push (scopeTag :: key)
+          resultsA := resultsA.push r.1
+          lbAuth := r.2
+        else
+          let r := pop st.eps st.lb us
+          keysA := keysA.push key
+          resultsA := resultsA.push r.1
+          st := { st with lb := r.2 }
+      | none =>
+        let opj ← match J.optObj ev "probe" with
+          | some p => pure p
+          | none => J.getObj ev "sync"
+        let h ← decodeOp st opj
+        let r := step st h.op
+        let st' := (quiesce h.up (fuelOf r.1) r.1 []).1
+        if (st'.eps.map fun e => (e.id, e.isReady)) != (st.eps.map fun e => (e.id, e.isReady)) then stable := false
+        st := st'
   let keys := keysA.toList
   let r : List PopOut × List (Key × Nat) := (resultsA.toList, st.lb)
   -- judge the implementation's results (or the model's own when none are given), pick i ↔ result i
@@ -96,7 +118,7 @@ def doRun (a : Json) : Except String Json := do
     let v := judgeGroup lb m (mine.map (·.1)) (mine.map (·.2))
     if stable then v else { v with applicable := false, bad := none }
   pure <| J.obj [
-    ("results", Json.arr (r.1.map encodePop).toArray), ("lb", encodeLb r.2),
+    ("results", Json.arr (r.1.map encodePop).toArray), ("lb", encodeLb r.2), ("lb_pickone", encodeLb lbAuth),
     ("groups", Json.arr (verdicts.map fun v => J.obj [
       ("members", Json.arr (v.members.map encodeId).toArray), ("k", J.nat v.k), ("orders", J.nat v.orders), ("n", J.nat v.n),
       ("applicable", J.bool v.applicable), ("strays", J.bool v.strays),
